@@ -142,6 +142,7 @@ class Atoms:
         self.names = []
         self.index = {}
         self.merge = True
+        self.sqrt_of = {}  # atom k -> radicand Q: powers of k are reduced modulo k^2 = radicand
         self.inverted = set()
         self.merge_timeout_ms = 5000
         self.stats = {"merged": 0, "recognized": 0, "side_queries": 0}
@@ -297,7 +298,21 @@ class Q:
                     m[k] = v
                 else:
                     m.pop(k, None)
-        return Q(cmul(a.c, b.c), m)
+        out = Q(cmul(a.c, b.c), m)
+        if ATOMS.sqrt_of and a.m and b.m:
+            for k in list(out.m):
+                if k in ATOMS.sqrt_of and abs(out.m.get(k, 0)) >= 2:
+                    e = out.m[k]
+                    pairs = abs(e) // 2
+                    rest = e - 2 * pairs * (1 if e > 0 else -1)
+                    m2 = {kk: ee for kk, ee in out.m.items() if kk != k}
+                    if rest:
+                        m2[k] = rest
+                    out = Q(out.c, m2)
+                    rad = ATOMS.sqrt_of[k]
+                    for _ in range(pairs):
+                        out = out * (rad if e > 0 else rad.inv())
+        return out
 
     __rmul__ = __mul__
 
@@ -386,6 +401,14 @@ class Q:
     def __pow__(a, n):
         if isinstance(n, Q) and n.isconst() and n.c[0].denominator == 1:
             n = int(n.c[0])
+        if isinstance(n, float) and n == 0.5 or isinstance(n, Fraction) and n == Fraction(1, 2):
+            if a.isconst() and a.c[1] == 0 and a.c[0] >= 0:
+                import math
+                nn, dd = a.c[0].numerator, a.c[0].denominator
+                rn, rd = math.isqrt(nn), math.isqrt(dd)
+                if rn * rn == nn and rd * rd == dd:
+                    return Q(Fraction(rn, rd))
+            return opaque_fn("sqrt", [a], True)
         if not isinstance(n, int):
             raise TypeError("Q ** non-integer")
         if n < 0:
@@ -394,6 +417,12 @@ class Q:
         for _ in range(n):
             r = r * a
         return r
+
+    def __abs__(a):
+        return qabs(a)
+
+    def sqrt(a):
+        return opaque_fn("sqrt", [a], True)
 
     def conj(a):
         holo_guard(a, "conj")
@@ -637,6 +666,27 @@ def _real_value(q, what):
     return v[0]
 
 
+def _signed_value(q, what):
+    """a real whose SIGN equals the sign of the real-valued q = c * prod atom^e: positive powers are expanded, an atom with a
+    negative exponent contributes its value once when the exponent is odd and nothing when it is even (atoms that are divided by
+    are assumed non-zero; real atoms only)"""
+    q = Q.lift(q)
+    holo_guard(q, what)
+    if not rzero(q.c[1]) and not q.iszero():
+        raise NotImplementedError(f"{what} of a complex value")
+    c = (q.c[0], Fraction(0))
+    for k, e in q.m.items():
+        if not ATOMS.real[k]:
+            raise NotImplementedError(f"{what} of a value with a complex factor")
+        v = ATOMS.value(k)
+        if k in ATOMS.sqrt_of and e < 0:
+            continue  # a square-root atom is > 0 when it is divided by
+        n = e if e > 0 else (-e) % 2
+        if n:
+            c = cmul(c, cpow((v[0], Fraction(0)), n))
+    return c[0]
+
+
 def compare(op, a, b):
     """a <op> b for real-valued Q's; returns bool (constants) or explore.SB"""
     from .explore import SB
@@ -656,6 +706,11 @@ def compare(op, a, b):
         if z3.is_false(e):
             return False
         return SB(e)
+    if any(e < 0 for e in a.m.values()) or any(e < 0 for e in b.m.values()):
+        d = _signed_value(a - b, op)
+        if isc(d):
+            return bool(f(d, 0))
+        return SB(f(tz(d), tz(Fraction(0))))
     x, y = _real_value(a, op), _real_value(b, op)
     if isc(x) and isc(y):
         return bool(f(x, y))
@@ -723,6 +778,10 @@ def qabs(q):
     if q.isreal() and not q.m:
         x = tz(q.c[0])
         return Q(z3.If(x >= 0, x, -x))
+    if q.isreal() and all(ATOMS.real[k] for k in q.m):
+        # |q| = q if sign(q) >= 0 else -q, with the sign read from the cross-multiplied form
+        sgn = tz(_signed_value(q, "abs"))
+        return ite(sgn >= 0, q, -q)
     if q.isreal():
         # |c * prod a_k^e_k| with real atoms: |c| * prod |a_k|^e_k -> use opaque abs atoms per atom
         out = qabs(Q(q.c))
@@ -841,6 +900,7 @@ def opaque_fn(name, args, is_real, semantic=None):
     if name == "sqrt" and a0 is not None and a0.isreal():
         (n, _), (d, _) = _cross(a0)
         facts += [re >= 0, re * re * tz(d) == tz(n)]
+        ATOMS.sqrt_of[k] = a0
     elif name == "abs" and a0 is not None:
         (n0, n1), (d0, d1) = _cross(a0)
         facts += [re >= 0,
@@ -864,3 +924,11 @@ _reset0 = reset
 def reset():  # noqa: F811
     _reset0()
     _OPAQUE_ARGS.clear()
+
+
+def tb_(x):
+    """bool / explore.SB -> z3 Bool"""
+    from .explore import SB
+    if isinstance(x, SB):
+        return x.e
+    return z3.BoolVal(bool(x))
